@@ -36,6 +36,9 @@ type C13Frame struct {
 type C13Episode struct {
 	Frames  []C13Frame `json:"frames"`
 	Garbage []byte     `json:"garbage,omitempty"` // appended after the frames (non-frame bytes)
+	// GarbageKind "bad-lengths": the garbage has a frame header's magic and
+	// version and impossible lengths, so no message may come out of it
+	GarbageKind string `json:"garbage_kind,omitempty"`
 	Cuts    []int      `json:"cuts,omitempty"`    // chunk sizes; empty + Exhaust => all cut positions
 	Exhaust int        `json:"exhaust"`           // 0 none, 1 every single cut, 2 every pair of cuts
 }
@@ -131,7 +134,18 @@ func genC13(seed uint64, tier string) *C13Plan {
 			}
 			e.Frames = append(e.Frames, f)
 		}
-		if g.Prob(0.15) {
+		if g.Prob(0.1) {
+			// bytes that look like a frame header but cannot be one: right magic
+			// and version, head length beyond the full length
+			total := g.Range(16, 64)
+			head := total + g.Range(1, 40)
+			e.Garbage = []byte{0xda, 0xda, 1, byte(total >> 24), byte(total >> 16), byte(total >> 8), byte(total), byte(head >> 8), byte(head),
+				byte(simkit.Pick(g, []int{simtc.FrameRequest, simtc.FrameResponse, simtc.FrameRequest})), 1, 0, 0, 0, 0, byte(g.Intn(200))}
+			for k := g.Intn(70); k > 0; k-- {
+				e.Garbage = append(e.Garbage, byte(g.Intn(256)))
+			}
+			e.GarbageKind = "bad-lengths"
+		} else if g.Prob(0.15) {
 			ng := g.Range(1, 24)
 			for k := 0; k < ng; k++ {
 				b := byte(g.Intn(256))
@@ -491,6 +505,10 @@ func checkC13(sim *simkit.Sim, ei int, ep *C13Episode, cuts []int, s *simnet.Ses
 				}
 			}
 		}
+	}
+	if ep.GarbageKind == "bad-lengths" && len(got) > n {
+		v("messages", "message-from-non-frame-bytes", "yielded %d messages for %d frames: the extra one was made of bytes whose head length exceeds their full length", len(got), n)
+		return
 	}
 	if len(ep.Garbage) == 0 {
 		if len(got) != n {
